@@ -270,7 +270,8 @@ Record obs := { o_out : option outcome;          (* None: an exception that is n
                 o_toks : list (list Z);          (* per block, per factor: token of the stored matrix, -1 unknown *)
                 o_fins : list (list bool);       (* per block, per factor: stored matrix is finite *)
                 o_pchg : list bool;              (* per block: parameter block differs bitwise from before the step *)
-                o_calls : nat }.                 (* matrix-routine calls made during this step *)
+                o_calls : nat;                   (* matrix-routine calls made during this step *)
+                o_warn : nat }.                  (* "Matrix computation failed ... Using previous ..." warnings logged *)
 
 Definition outcome_eqb (a b : outcome) : bool :=
   match a, b with
@@ -292,19 +293,37 @@ Fixpoint pchg_ok (before after : list block_state) (o : list bool) : bool :=
   | _, _, _ => false
   end.
 
-Definition agree_step (st st' : state) (out : outcome) (o : obs) : bool :=
+(* one warning is logged per failed computation: per Fail among the factors the loop got to *)
+Definition reachedb (b : nat) (o : outcome) : bool :=
+  match o with Ok => true | RaiseTol b' => b <=? b' | RaisePVE b' _ => b <=? b' end.
+Definition warn_limit (b nf : nat) (o : outcome) : nat :=
+  match o with RaisePVE b' k => if b =? b' then k else nf | _ => nf end.
+Definition count_fails (fi : nat -> factor_input) (n : nat) : nat :=
+  length (filter (fun k => is_fail (rout (fi k))) (seq 0 n)).
+Fixpoint warnings_from (b : nat) (bs : list block_state) (inp : step_input) (o : outcome) : nat :=
+  match bs with
+  | [] => 0
+  | sb :: bs' =>
+      (if present (inp b) && reachedb b o then count_fails (fin (inp b)) (warn_limit b (length (facts sb)) o) else 0)
+      + warnings_from (S b) bs' inp o
+  end.
+Definition expected_warnings (c : cfg) (st st' : state) (inp : step_input) (o : outcome) : nat :=
+  if negb (gstep st' =? gstep st) && is_refresh c (gstep st') then warnings_from 0 (blocks st) inp o else 0.
+
+Definition agree_step (c : cfg) (st st' : state) (inp : step_input) (out : outcome) (o : obs) : bool :=
   opt_outcome_eqb out (o_out o)
   && list_eqb Nat.eqb (map cnt (blocks st')) (o_cnts o)
   && list_eqb (list_eqb Z.eqb) (map (fun sb => map (fun f => Z.of_nat (tok f)) (facts sb)) (blocks st')) (o_toks o)
   && list_eqb (list_eqb Bool.eqb) (map (fun sb => map finite (facts sb)) (blocks st')) (o_fins o)
   && pchg_ok (blocks st) (blocks st') (o_pchg o)
-  && (ncalls st' - ncalls st =? o_calls o).
+  && (ncalls st' - ncalls st =? o_calls o)
+  && (expected_warnings c st st' inp out =? o_warn o).
 
 Fixpoint agree_from (c : cfg) (st : state) (h : list step_input) (os : list obs) : bool :=
   match h, os with
   | [], [] => true
   | i :: h', o :: os' => let so := step c st i in
-                         agree_step st (fst so) (snd so) o && agree_from c (fst so) h' os'
+                         agree_step c st (fst so) i (snd so) o && agree_from c (fst so) h' os'
   | _, _ => false
   end.
 
